@@ -390,7 +390,9 @@ impl LogInnerManager {
             self.index_file
                 .seek(SeekFrom::Start(self.index_cursor))
                 .await?;
-            self.index_file.write_all(&empty_data).await?;
+            self.index_file
+                .write_all(&vec![0u8; file_index_len as usize])
+                .await?;
             self.index_file
                 .seek(SeekFrom::Start(self.index_cursor))
                 .await?;
@@ -415,6 +417,9 @@ impl LogInnerManager {
             .seek(SeekFrom::Start(self.data_cursor))
             .await?;
         self.data_file.flush().await?;
+        //shrink then grow back: every byte from data_cursor on reads as zero again
+        self.data_file.set_len(self.data_cursor).await?;
+        self.data_file.set_len(self.file_len).await?;
         Ok(())
     }
 
